@@ -294,6 +294,16 @@ def analyze(ctx, want):
            "%simpl %s for %s%s" % ("unsafe " if i["unsafe"] else "", i["trait"], i["self"]["s"], " (emitted by #[derive(Clone, Copy)])" if ok else " — hand-made promise"), i["file"])
     ob("C14.b", "no-hand-made-send-sync", not [i for i in uimpls if re.search(r"marker::(Send|Sync)$", i["trait"])], "Send/Sync impls: %s" % [(i["trait"], i["self"]["s"]) for i in uimpls if "marker" in i["trait"]], "")
     ufns = [f for f in F.fns.values() if f.j.get("unsafe") and not is_derived(f)]
+    # an `unsafe fn` the rules do not know by name, called only on behalf of audited functions, is that function's unsafe
+    # block moved into a helper: its operations are held against the same list (below, where the block is audited)
+    helper_ufns = {}
+    for f in list(ufns):
+        if S.is_unknown_helper(f):
+            from .common import owners as owners__
+            on_ = sorted(set(o.name for o, _ in owners__(F, f)))
+            if on_:
+                helper_ufns[f.name] = (f, on_)
+                ufns.remove(f)
     ob("C14.c", "no-unsafe-fn", not ufns, "unsafe fns: %s" % [f.name for f in ufns], "")
     ub = [u for u in F.unsafe_blocks if u["user"] and not u["from_expansion"]]
     allowed_unsafe = {
@@ -326,9 +336,22 @@ def analyze(ctx, want):
                     p = s["p"]
                     if any(e["k"] == "deref" for e in p["pj"]) and "*const" in fn.locals[p["l"]]["ty"] + "":
                         inside.append("write through raw pointer")
+        # a call of an unsafe helper stands for the helper's own operations
+        expanded = []
+        for c in inside:
+            if c in helper_ufns:
+                expanded.extend(M.call_name(t_) for b_, t_ in helper_ufns[c][0].calls())
+            else:
+                expanded.append(c)
+        inside = expanded
         bad = [c for c in inside if not re.search(ops_rx, c)]
         ob("C14.c", "unsafe-block:" + M.short_name(name), not bad,
            "operations inside the unsafe block: %s; unexpected: %s [%s]" % ([M.short_name(c) for c in inside], [M.short_name(c) for c in bad], why), "%s:%d" % (u["file"], u["ln"]))
+    for hn, (hf, on_) in sorted(helper_ufns.items()):
+        rows_ = [(rx, v) for rx, v in allowed_unsafe.items() if all(re.search(rx, o_) for o_ in on_)]
+        ops_ = [M.call_name(t_) for b_, t_ in hf.calls()]
+        bad_ = [c for c in ops_ if not rows_ or not re.search(rows_[0][1][0], c)]
+        ob("C14.c", "unsafe-helper:" + M.short_name(hn), bool(rows_) and not bad_, "unsafe fn %s (on behalf of %s): operations %s; unexpected: %s" % (hn, [M.short_name(o_) for o_ in on_], [M.short_name(c) for c in ops_], [M.short_name(c) for c in bad_]), hf.loc())
     # the unsafe index: ids are only minted by the registry, the class table only grows, the closure is created last
     # who turns a number into a class id: the constructor and the conversions/arithmetic the id macro generates are plumbing
     # (ids.rs); what matters is who uses them outside ids.rs
@@ -842,7 +865,29 @@ def analyze(ctx, want):
         for bb, i, s in fn.assigns():
             rv = s["rv"]
             if rv["k"] == "aggregate" and rv.get("ak") == "adt" and rv["path"].endswith("ScannerImpl"):
-                aggs.append([M.op_str(o) if o["k"] == "const" else "v" for o in rv["fields"]])
+                pv_ = M.Prov(fn)
+                row = []
+                for o in rv["fields"]:
+                    if o["k"] == "const":
+                        row.append(M.op_str(o))
+                    else:
+                        e_ = pv_.operand(o)      # a local holding a literal counts as the literal
+                        row.append(("const %s" % e_[1]) if e_[0] == "const" else "v")
+                aggs.append(row)
+        # a helper the rules do not know stands for the calls it makes
+        changed = True
+        rounds = 0
+        while changed and rounds < 4:
+            changed, rounds = False, rounds + 1
+            out = []
+            for n in seq:
+                hs = [f_ for f_ in F.fns.values() if M.short_name(f_.name) == n and S.is_unknown_helper(f_) and f_.kind != "Closure"]
+                if len(hs) == 1:
+                    out.extend(skeleton(hs[0])[0])
+                    changed = True
+                else:
+                    out.append(n)
+            seq = out
         return sorted(seq), aggs
 
     sa, aa = skeleton(fa)
@@ -871,6 +916,12 @@ def analyze(ctx, want):
             while av is not None and av[0] == "app" and re.search(r"Deref>::deref$|<impl \[.*\]>::as_slice$|Vec::<.*>::as_slice$|AsRef<.*>>::as_ref$|Borrow<.*>>::borrow$", str(av[1])) and len(av[2]) == 1:
                 av = ex.deref_val(p, av[2][0]) if av[2][0][0] == "ref" else av[2][0]
             ok = av is not None and (av == own or (av[0] == "array" and tuple(av[1]) == (own,)) or (av[0] == "vec" and tuple(av[1]) == (own,)))
+            while av is not None and av[0] == "deref":
+                av = av[1]
+            if not ok and av is not None and av[0] == "app" and re.search(r"slice::from_ref(::<.*>)?$", str(av[1])) and len(av[2]) == 1:
+                # the one-element slice borrowed from the builder's single mode
+                one = ex.deref_val(p, av[2][0]) if av[2][0][0] == "ref" else av[2][0]
+                ok = one == own
             recv_ok = len(c) == 1 and c[0][4] is not None and S.mentions(c[0][4], lambda x: x == ("sym", "static:SCANNER_CACHE"))
             ob("C13.f", "build-goes-through-the-cache-with-own-modes:" + M.short_name(fn.name), ok and recv_ok,
                "ScannerCache::get(%s)" % (", ".join(S.vstr(a)[:70] for a in c[0][3]) if c else "none"), fn.loc())
